@@ -99,7 +99,8 @@ func (r *Reliable) initiate(req bool) {
 			verifhook.Pause("tubes.Reliable.initiate:loop")
 			r.l.Lock()
 			switch r.tubeState {
-			case initiated:
+			case initiated, closeWait:
+				// closeWait: the peer's FIN was already processed, see below
 				r.l.Unlock()
 				break initLoop
 			case created:
@@ -127,7 +128,10 @@ func (r *Reliable) initiate(req bool) {
 	}
 
 	r.l.Lock()
-	if r.tubeState != initiated {
+	// The peer's FIN can be processed between the initiation frame and this
+	// point (initiated -> closeWait). The tube is still live then and needs its
+	// sender to acknowledge that FIN and to send its own.
+	if r.tubeState != initiated && r.tubeState != closeWait {
 		r.l.Unlock()
 		return
 	}
